@@ -224,8 +224,8 @@ impl<'a, T: Serialize, I> IndexedMap<'a, (u64, String), T, I> {
         requires
             action.requires((imap_opt(T::imap_get(old(s)@), k),)),
         ensures
-            r is Ok ==> action.ensures((imap_opt(T::imap_get(old(s)@), k),), r)
-                && final(s)@ == T::imap_put(old(s)@, T::imap_get(old(s)@).insert(k, r->Ok_0)),
+            action.ensures((imap_opt(T::imap_get(old(s)@), k),), r),
+            r is Ok ==> final(s)@ == T::imap_put(old(s)@, T::imap_get(old(s)@).insert(k, r->Ok_0)),
             r is Err ==> final(s)@ == old(s)@,
     { unimplemented!() }
     #[verifier::external_body]
